@@ -97,6 +97,8 @@ class Setup:
         data = numpy.array(self.rates if rates is None else rates, dtype=float)
         if self.case.get("rate_dtype") == "int" and numpy.all(data == numpy.floor(data)):
             data = data.astype(numpy.int64)
+        elif self.case.get("rate_dtype") == "float32" and numpy.array_equal(data.astype(numpy.float32).astype(float), data):
+            data = data.astype(numpy.float32)      # only when every rate is a float32 number: same values, single-precision storage
         # same values, different memory layout: Fortran order, or a strided view into a larger array
         layout = self.case.get("layout", "C")
         if layout == "F":
